@@ -230,6 +230,18 @@ func (env *ByteEnv) evalInt(e ast.Expr, v int) (int64, bool) {
 				return tbl[i], true
 			}
 		}
+	case *ast.SelectorExpr:
+		// table[i].field for a package-level table of structs
+		if ix, ok := ast.Unparen(x.X).(*ast.IndexExpr); ok && env.Prog != nil {
+			if obj := ObjOf(env.Info, ix.X); obj != nil {
+				if tbl := env.Prog.ConstFieldTableOf(obj, x.Sel.Name); tbl != nil {
+					i, ok := env.evalInt(ix.Index, v)
+					if ok && i >= 0 && int(i) < len(tbl) {
+						return tbl[i], true
+					}
+				}
+			}
+		}
 	case *ast.BinaryExpr:
 		l, ok1 := env.evalInt(x.X, v)
 		r, ok2 := env.evalInt(x.Y, v)
